@@ -1025,6 +1025,56 @@ pub fn reader_skip_bytes<R: Read>(reader: &mut R, n: usize) -> (r: Result<VisVal
     ensures exists|v: VisS| v.total() && #[trigger] bytes_forwarded(*old(reader), *final(reader), n, v, r), final(reader).wf(), final(reader).reliable() == old(reader).reliable(),
 { unimplemented!() }
 impl<R: Read> Deserializer<R> {
+//@@ fn file=serde_amqp/src/de.rs impl=`impl<'a, 'de, R: Read<'de>> DescribedAccess<'a, R>` name=consume_list_header id=DescribedAccess::consume_list_header
+//@@ qmark
+//@@ generics
+//@@ nowhere
+//@@ subst `self .as_mut()` => `self` rule=R30
+//@@ subst `self.as_mut()` => `self` rule=optional-R30
+//@@ subst `|| Error::unexpected_eof("Expecting format code")` => `|| -> (o: Error) { Error::unexpected_eof("Expecting format code") }` rule=R18
+//@@ subst `|| Error::unexpected_eof("Expecting size")` => `|| -> (o: Error) { Error::unexpected_eof("Expecting size") }` rule=R18
+//@@ subst `|| Error::unexpected_eof("Expecting count")` => `|| -> (o: Error) { Error::unexpected_eof("Expecting count") }` rule=R18
+//@@ subst `u32::from_be_bytes(` => `from_be32(` rule=R9
+//@@ subst `de::Error::custom("Invalid format code. Expecting a list")` => `Error::Other` rule=R9
+//@@ spec
+    requires bounded(old(self).reader),
+    ensures
+        final(self).reader.wf(),
+        r is Ok ==> ({
+            let u = eff_unread(*old(self));
+            let hdr = if old(self).elem_format_code is Some { 0int } else { 1int };
+            &&& u.len() > 0 && ((u[0] == 0x45 && r->Ok_0 == 0 && final(self).reader.unread() =~= old(self).reader.unread().skip(hdr)) || u[0] == 0xc0 || u[0] == 0xd0)       // [C05.composite.header-is-a-list] the body of a composite is announced by a list constructor and nothing else
+            &&& (u[0] == 0xc0 ==> u.len() >= 3 && r->Ok_0 == u[2] as u32 && final(self).reader.unread() =~= old(self).reader.unread().skip(hdr + 2))       // [C05.composite.count-is-the-headers-count] the field count is the COUNT octet of the header (the second one: the size comes first), and exactly the header is consumed
+            &&& (u[0] == 0xd0 ==> u.len() >= 9 && r->Ok_0 == sp_be32(u.subrange(5, 9)) && final(self).reader.unread() =~= old(self).reader.unread().skip(hdr + 8))       // [C05.composite.count-is-the-headers-count] likewise for the 32-bit form: four octets of size, then four of count, big-endian
+        }),
+//@@ end
+
+//@@ fn file=serde_amqp/src/de.rs impl=`impl<'a, 'de, R: Read<'de>> DescribedAccess<'a, R>` name=consume_map_header id=DescribedAccess::consume_map_header
+//@@ qmark
+//@@ generics
+//@@ nowhere
+//@@ subst `self .as_mut()` => `self` rule=R30
+//@@ subst `self.as_mut()` => `self` rule=optional-R30
+//@@ subst `|| Error::unexpected_eof("Expecting format code")` => `|| -> (o: Error) { Error::unexpected_eof("Expecting format code") }` rule=R18
+//@@ subst `|| Error::unexpected_eof("Expecting size")` => `|| -> (o: Error) { Error::unexpected_eof("Expecting size") }` rule=R18
+//@@ subst `|| Error::unexpected_eof("Expecting count")` => `|| -> (o: Error) { Error::unexpected_eof("Expecting count") }` rule=R18
+//@@ subst `u32::from_be_bytes(` => `from_be32(` rule=R9
+//@@ subst `de::Error::custom("Invalid format code. Expecting a list")` => `Error::Other` rule=R9
+//@@ spec
+    requires bounded(old(self).reader),
+    ensures
+        final(self).reader.wf(),
+        r is Ok ==> ({
+            let u = eff_unread(*old(self));
+            let hdr = if old(self).elem_format_code is Some { 0int } else { 1int };
+            &&& u.len() > 0 && (u[0] == 0xc1 || u[0] == 0xd1)       // [C05.composite.header-is-a-map] the body of a composite is announced by a map constructor and nothing else
+            &&& (u[0] == 0xc1 ==> u.len() >= 3 && r->Ok_0 == u[2] as u32 && final(self).reader.unread() =~= old(self).reader.unread().skip(hdr + 2))       // [C05.composite.count-is-the-headers-count] the field count is the COUNT octet of the header (the second one: the size comes first), and exactly the header is consumed
+            &&& (u[0] == 0xd1 ==> u.len() >= 9 && r->Ok_0 == sp_be32(u.subrange(5, 9)) && final(self).reader.unread() =~= old(self).reader.unread().skip(hdr + 8))       // [C05.composite.count-is-the-headers-count] likewise for the 32-bit form: four octets of size, then four of count, big-endian
+        }),
+//@@ end
+
+}
+impl<R: Read> Deserializer<R> {
 //@@ fn file=serde_amqp/src/de.rs impl=`~de::Deserializer<'de>for&mutDeserializer<R>` name=deserialize_seq
 //@@ subst `self.reader .forward_read_bytes_with_hint(__E1, de::IgnoredAny)` => `reader_skip_bytes(&mut self.reader, __E1)` rule=R9
 //@@ selfmut
